@@ -22,15 +22,22 @@ Definition unesc_c (s:bs) : bs := match must_unescape s with Ok t => t | Panic =
 
 Fixpoint sassoc {V} (k:string) (l:list (string * V)) : option V :=
   match l with [] => None | (k', v) :: r => if String.eqb k k' then Some v else sassoc k r end.
-(* mapOpenAPITypeAndFormatToType (inputs are lower case in the modelled subset) *)
-Definition map_type_c (ty fmt:string) : bs :=
-  of_string match sassoc ty oas_type_table with
-            | Some fm => match sassoc fmt fm with
-                         | Some r => r
-                         | None => match sassoc EmptyString fm with Some r => r | None => ty end
-                         end
-            | None => ty
-            end.
+(* strings.ToLower, on ASCII *)
+Fixpoint slower (s:string) : string :=
+  match s with EmptyString => EmptyString | String c r => String (lower1 c) (slower r) end.
+(* mapOpenAPITypeAndFormatToType on lower-cased inputs: the listed (type, format); an unlisted format falls back to
+   the bare type's entry (the recursive call with format ""); an unknown type is handed back as it is. A row
+   without a "" entry would make the Go code recurse for ever: type_table_rows_have_bare_entry (ImportTheorems)
+   shows that no row of the current table is like that, so the innermost `None` is never reached. *)
+Definition map_type_l (ty fmt:string) : string :=
+  match sassoc ty oas_type_table with
+  | Some fm => match sassoc fmt fm with
+               | Some r => r
+               | None => match sassoc EmptyString fm with Some r => r | None => ty end
+               end
+  | None => ty
+  end.
+Definition map_type_c (ty fmt:string) : bs := of_string (map_type_l (slower ty) (slower fmt)).
 
 (* the compiler: NativeDataTypes of the lexer (any case) and the primitive each one denotes *)
 Definition native_table : list (string * (string * N)) :=
@@ -53,10 +60,16 @@ Definition b (l:list N) : bs := of_codes l.
 
 (* ---------------- XSD ---------------- *)
 Require Import Verif.Foreign.XsdSpec.
-(* findType: xs:string/time/NMTOKEN -> string, xs:integer -> int, xs:boolean -> bool, xs:date -> date (the mapping
-   literal of loadSchemaTypes); other builtins by makeXsdBuiltinType / checkBuiltInTypes *)
+(* findType on an XSD builtin with local name p: (1) the mapping literal of loadSchemaTypes, registered under
+   "<xs namespace>:<key>" (Gen xsd_type_table; the keys are LOWER-cased constant names, compared exactly);
+   (2) TypeList.Find(p) answers Sysl's builtin type names first (any case; the name is kept as written);
+   (3) makeXsdBuiltinType: xs:integer / xs:int -> int, every other builtin -> string *)
 Definition xprim_word_c (p:string) : bs :=
-  of_string (if String.eqb p "integer" then "int" else if String.eqb p "boolean" then "bool" else p)%string.
+  match sassoc p xsd_type_table with
+  | Some w => of_string w
+  | None => if is_builtin_c (of_string p) then of_string p
+            else if String.eqb p "integer" || String.eqb p "int" then of_string "int" else of_string "string"
+  end%string.
 Definition is_complex_c (doc:xsddoc) (n:bs) : bool :=
   match lookup n doc with Some (XComplex _ _ _) => true | _ => false end.
 Definition import_xsd_c (doc:xsddoc) : proj :=
@@ -70,3 +83,52 @@ Definition import_endpoints_c : list oendpoint -> list (bs * epproj) :=
   import_endpoints safe_name_cur unesc_c map_type_c native_c.
 Definition ep_case := (list oendpoint * list (bs * epproj))%type.
 Definition ep_ok (c:ep_case) : bool := assoc_eqb epproj_eqb (import_endpoints_c (fst c)) (snd c).
+
+(* ---------------- responses and the types generated for them ---------------- *)
+Require Import Verif.Foreign.ResponseSpec.
+(* utils.go cleanEndpointPath *)
+Definition clean_path (s:bs) : bs :=
+  map (fun c => if amem c ["/"; "{"; "}"; "-"]%char then "_"%char else c) s.
+(* utils.go convertToSyslSafe (on ASCII bytes; without '-' and ' ' it is the identity) *)
+Fixpoint to_sysl_safe_go (up:bool) (s:bs) : bs :=
+  match s with
+  | [] => []
+  | c :: r => if aeqb c "-"%char then to_sysl_safe_go true r
+              else if aeqb c " "%char then to_sysl_safe_go up r
+              else (if up then upper1 c else c) :: to_sysl_safe_go false r
+  end.
+Definition to_sysl_safe (s:bs) : bs := to_sysl_safe_go false s.
+(* strings.ReplaceAll for a non-empty needle *)
+Fixpoint replace_all_f (fuel:nat) (k v s:bs) : bs :=
+  match fuel with
+  | O => s
+  | S f =>
+      match s with
+      | [] => []
+      | c :: r => match strip_prefix k s with
+                  | Some rest => v ++ replace_all_f f k v rest
+                  | None => c :: replace_all_f f k v r
+                  end
+      end
+  end.
+Definition replace_all (k v s:bs) : bs := replace_all_f (S (List.length s)) k v s.
+(* utils.go getSyslSafeURI: escapeUnsafeSyslChars, then eight escapes are put back (map order: the keys are
+   disjoint %XX blocks) *)
+Definition keep_list : list (bs * bs) :=
+  map (fun kv => (of_string (fst kv), of_string (snd kv)))
+      [("%2F", "/"); ("%7B", "{"); ("%7D", "}"); ("%3D", "="); ("%3F", "?"); ("%26", "&"); ("%40", "@"); ("%7E", "~")]%string.
+Definition safe_uri_c (s:bs) : bs :=
+  fold_left (fun n kv => replace_all (fst kv) (snd kv) n) keep_list (escape_unsafe escape_table s).
+(* typePrefix (without the "_" that follows it) *)
+Definition resp_prefix_c (path:bs) : bs := safe_uri_c (to_sysl_safe (clean_path path)).
+
+Definition import_full_c : oasdoc -> list oop -> proj :=
+  import_full safe_name_cur is_builtin_c tname_c fname_c unesc_c map_type_c native_c resp_prefix_c.
+Definition import_returns_c : oasdoc -> list oop -> list (bs * list bs) :=
+  import_returns safe_name_cur is_builtin_c tname_c map_type_c resp_prefix_c.
+(* a generated OpenAPI 2 document with its operations: types (definitions + generated response types) and the
+   return lines of every endpoint *)
+Definition full_case := ((oasdoc * list oop) * (proj * list (bs * list bs)))%type.
+Definition full_ok (c:full_case) : bool :=
+  proj_eqb (import_full_c (fst (fst c)) (snd (fst c))) (fst (snd c))
+  && returns_eqb (import_returns_c (fst (fst c)) (snd (fst c))) (snd (snd c)).
